@@ -21,11 +21,17 @@ def check(run):
     run.rule = ("documents of the recursive grammar vt/harness/c05_gen.wellformed: 0-2 leading blocks, 1-6 sections (levels 2-4); a section "
                 "body is text + blocks, or (12%) visible content without any plain word (label-less [[links]], bare URLs, lists of them, "
                 "a formula); blocks = paragraphs of styled/linked text with <ref>s, properly nested */# lists (depth <= 3), tables of 1-4 "
-                "rows x 1-4 columns with optional caption/header row, tables of 2-4 x 2-3 cells of which 1-2 hold 1-4 blocks (paragraphs/"
+                "rows x 1-4 columns with optional caption (plain words or a run of styled / linked text with footnotes) / header row, tables of 2-4 x 2-3 cells of which 1-2 hold 1-4 blocks (paragraphs/"
                 "lists) of 1-5 / 10-60 / 100-330 words (whole table < 2400 characters), preformatted blocks with captioned images, "
                 "indented lines, blocks of 2..25 structurally equal (85%) or distinct captioned images in one preformatted line / indented "
                 "lines inside one paragraph (all mis-nested under ONE ancestor: content must be neither lost, re-ordered nor multiplied); "
-                "25% of the documents use named references incl. re-use; words are unique except that 12% of the documents "
+                "25% of the documents use named references incl. re-use, the name written in several spellings (blanks around / inside the "
+                "quoted value, quoting style, case, Unicode look-alikes) at definition and use; half of the footnotes hold words, styled "
+                "words and article links of which 45% go to an article the same footnote links already (other label / same label / no "
+                "label), 20% to one linked elsewhere in the document (body text, other footnotes); on top, exhaustively, 24 small documents: "
+                "one article linked twice, label x label (different / equal / none) x place (one footnote, two footnotes, body + footnote, "
+                "named footnote used twice) and 180: small table shape (1x1, 1x3, 3x1, 2x2, list-only rows, header row, lonely colspan, images) x "
+                "caption of 1..11 inline nodes x caption above / below the rows x with / without a heading before; words are unique except for repeated links and that 12% of the documents "
                 "repeat one inline element / list item / cell line verbatim (structurally equal siblings). distinct = distinct wikitext; "
                 "non-trivial = at least one pass changed the tree")
     run.trusted = c05.TRUSTED + ["the oracle's labelling (vt/harness/c05_snap.c07_compare): a section / reference is identified by the "
@@ -34,6 +40,11 @@ def check(run):
     run.assumptions = ["visible words = Text captions, targets of childless article/namespace links, URL and Math captions, split at whitespace",
                        "reading order inside a table is compared column by column when the row-major order differs (split_big_table_cells "
                        "continues a cell that is taller than a page in the row below, in the same column)",
+                       "the same EXTERNAL url twice inside one footnote is not in the grammar (remove_dup_links_in_refs documents the second "
+                       "one as a duplicate); the same ARTICLE linked several times in one footnote is (every label is visible text)",
+                       "words may occur more than once (repeated links): loss / duplication is decided on occurrence counts, 'remains a "
+                       "table' on the number of occurrences inside tables, footnote texts as a multiset when two footnotes begin with the "
+                       "same word",
                        "a section whose body is only an unlabelled bracketed external link ([http://x], printed as a number) is not in the "
                        "grammar: the cleaner documents it as empty",
                        "the universal statement about the composition of ALL passes is decided by exploration, not by proof (proved: the "
